@@ -154,6 +154,9 @@ QRoom(n) == enabled \/ Len(queue) + n <= MaxQ
 ProbeTargets(rg) == {x \in rg : "probe" \in (IF x \in Comps THEN Decl[x] ELSE PDecl[x])}
 \* an event name is known to the dispatcher once a handler mapping it was registered (until clear)
 PK == probeKnown' = (probeKnown \/ ProbeTargets(reg') # {})
+\* ... also when the listeners S were registered only in passing (attached and detached again within the call): an event
+\* name stays known to the dispatcher once it has had a listener
+PKWith(S) == probeKnown' = (probeKnown \/ ProbeTargets(reg' \cup S) # {})
 Same == PK /\ UNCHANGED <<nextAuto, enabled, selfReg, procs, pprio, pworld, bad>>
 
 \* --- create_entity(*cs, entity_id=id) ; id = NoEnt means automatic ------------------------------
@@ -195,7 +198,7 @@ CreateEntity(id, cs) ==
        /\ Commit(AnnounceAll(CreateTables(wa, e, ks), e, ks))
        /\ ret' = <<"id", e, "-">>
        /\ bad' = IF bad = "none" /\ id = NoEnt /\ e \in DOMAIN rows THEN "auto_id_in_use" ELSE bad
-    /\ PK /\ UNCHANGED <<enabled, selfReg, procs, pprio, pworld>>
+    /\ PKWith({cs[i] : i \in 1..Len(cs)}) /\ UNCHANGED <<enabled, selfReg, procs, pprio, pworld>>
 
 \* --- add_component(e, c) -------------------------------------------------------------------------
 AddComponent(e, c) ==
@@ -221,7 +224,7 @@ AddSelfRemoving(e, c) ==
            w1 == IF t \in DOMAIN Row(rows, e) THEN Detach(W0, e, t) ELSE W0
            w2 == Announce(Tables(w1, e, c), e, c) IN
        Commit(Detach(w2, e, t))
-    /\ ret' = <<"ok", 0, "-">> /\ Same
+    /\ ret' = <<"ok", 0, "-">> /\ PKWith({c}) /\ UNCHANGED <<nextAuto, enabled, selfReg, procs, pprio, pworld, bad>>
 \* (b) create_entity(c, d) where the on_add of c disables dispatching (a pause / loading-screen component): the
 \*     callbacks of the components that follow in the same call are postponed, not called
 CreateDisabling(id, c, d) ==
